@@ -277,6 +277,56 @@ def sec_dispatch(rep):
         rep.add(ob_eval(f"C10/get_result/TMC={mode}-dispatch", called == [meth] and r.x == 0.3 and r.Q2 == 10.0, detail=str(called)))
 
 
+def sec_sf_dispatch(rep):
+    """StructureFunction.get_esf / load: with TMC switched on in the card and use_raw=False the object
+    handed out for F2, FL, F3 and g1 IS the target-mass-corrected one (the class of tmc.ESFTMCmap for
+    that kind, same kinematics), for its own name and for a sibling's; use_raw=True and TMC=0 give the
+    uncorrected object; kinds without a correction (gL, g4) are refused, not silently left uncorrected;
+    and cross sections ask with use_raw=False by keyword (xs.CrossSection.get_esf, C11)."""
+    from yadism.esf import tmc, esf as esfmod
+    from yadism.sf import StructureFunction
+
+    from . import c11
+    from .c16 import _Runner
+
+    rep.under_contract(StructureFunction.get_esf, StructureFunction.load)
+    sy = H.Sy()
+    kin = {"x": 0.3, "Q2": 10.0}
+    for kind in H.SF_KINDS:
+        for mode in (0, 1, 2, 3):
+            for flavor in ("total", "charm"):
+                rep.cases += 1
+                on = H.obs_name(kind, flavor)
+                want = "raw" if mode == 0 else ("tmc" if kind in tmc.ESFTMCmap else "refused")
+                got = {}
+                for how in ("get_esf", "load", "sibling", "use_raw"):
+                    r = _Runner(H.make_configs(sy, symbolic=False, tmc=mode))
+                    try:
+                        if how == "get_esf":
+                            o = r.get_sf(on).get_esf(on, dict(kin), use_raw=False)
+                        elif how == "load":
+                            sf = r.get_sf(on)
+                            sf.load([dict(kin)])
+                            o = sf.elements[0]
+                        elif how == "sibling":  # asked through another structure function's manager
+                            o = r.get_sf(H.obs_name("F2" if kind != "F2" else "FL", flavor)).get_esf(on, dict(kin), use_raw=False)
+                        else:
+                            o = r.get_sf(on).get_esf(on, dict(kin), use_raw=True)
+                        got[how] = "tmc" if isinstance(o, tmc.EvaluatedStructureFunctionTMC) and (kind not in tmc.ESFTMCmap or type(o) is tmc.ESFTMCmap[kind]) and (o.x, o.Q2) == (0.3, 10.0) else ("raw" if type(o) is esfmod.EvaluatedStructureFunction and (o.x, o.Q2) == (0.3, 10.0) else f"other:{type(o).__name__}")
+                    except NotImplementedError:
+                        got[how] = "refused"
+                    except Exception as e:  # noqa
+                        got[how] = f"raised {type(e).__name__}"
+                # the manager's hand-over to a sibling passes no use_raw on (TMC integrals ask for raw
+                # siblings): it answers with the raw object -- which is why callers that need the
+                # corrected one go to the manager of the structure function itself (C11 history)
+                exp = {"get_esf": want, "load": want, "sibling": "raw", "use_raw": "raw"}
+                ok = got == exp
+                rep.add(ob_eval(f"C10/StructureFunction.get_esf/TMC={mode}/{kind}_{flavor}/corrected object iff TMC on and not use_raw", ok, detail=str(got), inputs={} if ok else {"kind": kind, "heavyness": flavor, "TMC": mode, "observed": str(got), "expected": str(exp)}, replay={"confirmed": True, "python": f"runner with TMC={mode}: get_sf({kind}_{flavor}).get_esf(..., use_raw=False) / load / sibling / use_raw=True"}))
+    # cross sections: every request by keyword use_raw=False to the manager asked for
+    c11.sec_xs(rep)
+
+
 def sec_convolve(rep):
     """_convolve_FX: xi below the grid -> ValueError; otherwise sum over the basis functions not
     below xi of convolution(RSL(ker,[xi]), xi, p_j) * F_kind(x_j) with the observable's heavyness."""
@@ -424,7 +474,7 @@ def run(rep, tier, seed, only=None):
         "sqrt atom carries rho^2 = 1 + 4 x^2 M2/Q2; continuity at M=0 from definedness of all coefficients for M2 >= 0",
     )
     rep.stub("sf.StructureFunction -> SFStub (abstract structure functions)", "conv.convolution -> abstract I[weight](j), weight decided semantically from the kernel passed", "eko interpolator -> 4-node stub")
-    for nm, f in (("kernels", sec_kernels), ("lcov", sec_lcov), ("init", sec_init), ("formulas", sec_formulas), ("dispatch", sec_dispatch), ("convolve", sec_convolve), ("limit", sec_limit), ("domain", sec_domain), ("runnerwiring", sec_runner_wiring)):
+    for nm, f in (("kernels", sec_kernels), ("lcov", sec_lcov), ("init", sec_init), ("formulas", sec_formulas), ("dispatch", sec_dispatch), ("sfdispatch", sec_sf_dispatch), ("convolve", sec_convolve), ("limit", sec_limit), ("domain", sec_domain), ("runnerwiring", sec_runner_wiring)):
         if only and only not in nm:
             continue
         if nm in ("formulas", "convolve"):
